@@ -60,6 +60,9 @@ type BN struct {
 	attCache    func(context.Context, eth2p0.Epoch, []eth2p0.ValidatorIndex) (eth2wrap.AttesterDutyWithMeta, error)
 	syncCache   func(context.Context, eth2p0.Epoch, []eth2p0.ValidatorIndex) (eth2wrap.SyncDutyWithMeta, error)
 	fail        map[string]int
+	// AfterAnswer, if set, runs after a duties endpoint has assembled its answer (from the tables as they were)
+	// and before the caller receives it: what happens while the response is on its way.
+	AfterAnswer func(endpoint string, epoch eth2p0.Epoch)
 	latency     time.Duration
 }
 
@@ -279,7 +282,15 @@ func want(indices []eth2p0.ValidatorIndex) func(eth2p0.ValidatorIndex) bool {
 	return func(i eth2p0.ValidatorIndex) bool { return set[i] }
 }
 
-func (b *BN) AttesterDuties(_ context.Context, opts *eth2api.AttesterDutiesOpts) (*eth2api.Response[[]*eth2v1.AttesterDuty], error) {
+func (b *BN) AttesterDuties(ctx context.Context, opts *eth2api.AttesterDutiesOpts) (*eth2api.Response[[]*eth2v1.AttesterDuty], error) {
+	resp, err := b.attesterDuties(ctx, opts)
+	if h := b.AfterAnswer; h != nil && err == nil {
+		h("attester", opts.Epoch)
+	}
+	return resp, err
+}
+
+func (b *BN) attesterDuties(_ context.Context, opts *eth2api.AttesterDutiesOpts) (*eth2api.Response[[]*eth2v1.AttesterDuty], error) {
 	if err := b.enter("attester"); err != nil {
 		b.record("attester", opts.Epoch, false)
 		return nil, err
@@ -325,7 +336,15 @@ func (b *BN) AttestationData(_ context.Context, opts *eth2api.AttestationDataOpt
 	}}, nil
 }
 
-func (b *BN) ProposerDuties(_ context.Context, opts *eth2api.ProposerDutiesOpts) (*eth2api.Response[[]*eth2v1.ProposerDuty], error) {
+func (b *BN) ProposerDuties(ctx context.Context, opts *eth2api.ProposerDutiesOpts) (*eth2api.Response[[]*eth2v1.ProposerDuty], error) {
+	resp, err := b.proposerDuties(ctx, opts)
+	if h := b.AfterAnswer; h != nil && err == nil {
+		h("proposer", opts.Epoch)
+	}
+	return resp, err
+}
+
+func (b *BN) proposerDuties(_ context.Context, opts *eth2api.ProposerDutiesOpts) (*eth2api.Response[[]*eth2v1.ProposerDuty], error) {
 	if err := b.enter("proposer"); err != nil {
 		b.record("proposer", opts.Epoch, false)
 		return nil, err
@@ -347,7 +366,15 @@ func (b *BN) ProposerDuties(_ context.Context, opts *eth2api.ProposerDutiesOpts)
 	return &eth2api.Response[[]*eth2v1.ProposerDuty]{Data: out, Metadata: map[string]any{"epoch": uint64(opts.Epoch)}}, nil
 }
 
-func (b *BN) SyncCommitteeDuties(_ context.Context, opts *eth2api.SyncCommitteeDutiesOpts) (*eth2api.Response[[]*eth2v1.SyncCommitteeDuty], error) {
+func (b *BN) SyncCommitteeDuties(ctx context.Context, opts *eth2api.SyncCommitteeDutiesOpts) (*eth2api.Response[[]*eth2v1.SyncCommitteeDuty], error) {
+	resp, err := b.syncCommitteeDuties(ctx, opts)
+	if h := b.AfterAnswer; h != nil && err == nil {
+		h("sync", opts.Epoch)
+	}
+	return resp, err
+}
+
+func (b *BN) syncCommitteeDuties(_ context.Context, opts *eth2api.SyncCommitteeDutiesOpts) (*eth2api.Response[[]*eth2v1.SyncCommitteeDuty], error) {
 	if err := b.enter("sync"); err != nil {
 		b.record("sync", opts.Epoch, false)
 		return nil, err
